@@ -18,11 +18,13 @@ GenInit == Init /\ hist = <<>> /\ units = 0 /\ start = pactive
 NSSeq == SetToSeq(NS)
 AsSeq(act) == [i \in 1..Len(NSSeq) |-> act[NSSeq[i]]]
 
-(* compact: <<op, n, v, out, allowed, want, exp, iact, ptr>>, maps as tuples in the order of NSSeq *)
+(* compact: <<op, n, v, out, allowed, want, exp, iact, ptr, iauth>>, maps as tuples in the order of NSSeq;
+   iauth = what the code-shaped directory is predicted to answer: <<namespace, user, password>> of every accepted pair *)
 Entry(o) == <<o.op, o.n, o.v, OutOf(o), PAllowed(plast, o, "ok"),
               IF o.op = "commit" THEN plast[o.n] ELSE None,
               AsSeq(pactive'), AsSeq(Visible'),
-              IF EmitTriples THEN SetToSeq(PTriples') ELSE <<>> >>
+              IF EmitTriples THEN SetToSeq(PTriples') ELSE <<>>,
+              IF EmitTriples THEN SetToSeq({t \in {<<CAuth(c[1], c[2])', c[1], c[2]>> : c \in AuthUniverse} : t[1] # ""}) ELSE <<>> >>
 
 GenTry(o) == /\ units < GenLen \/ (Paired /\ last.op = "prepare")
              /\ Try(o)
